@@ -58,6 +58,8 @@ type World struct {
 	rolesCache map[string]*ssa.Function
 	encCache   map[*ssa.Function]*encInfo
 	lenEncCache map[*ssa.Function]*lenEncInfo
+	chunkReadCache map[*ssa.Function][]chunkRead
+	chunkTruncCache map[*ssa.Function]bool
 	decCache   map[*ssa.Function]*decTab
 	wCache     map[*ssa.Function]*writerInfo
 	dispCache  map[string]*dispatch
